@@ -342,7 +342,7 @@ def u_piecewise():
             return {"sound(rows=>active-piece-semantics)": z3.Implies(H, z3.And(st["Hpre"], sem)),
                     "complete(intended-assignment=>rows)": z3.Implies(z3.And(st["Hpre"], wit), H)}
 
-        def on_entry(ns):
+        def on_entry(ns, it=None):
             me = ns["self"]
             st["Hpre"] = me.store.holds.t           # the store when the loop is reached
             st["z"] = me.created[-1]["val"]         # sigma-values of the fresh selector columns
@@ -464,7 +464,7 @@ def u_integer_product():
     for integer 0 <= x <= ub, lb <= c <= ub, lb <= 0 <= ub (all call sites pass lb = 0)."""
     st = {}
 
-    def on_entry(ns):
+    def on_entry(ns, it=None):
         me = ns["self"]
         st["Hpre"] = me.store.holds.t
         st["beta"] = me.created[0]["val"]
